@@ -108,16 +108,7 @@ class SymInt(object):
         return self.e.branch(self.z != 0)
 
     def realize(self):
-        m = self.e.model()
-        if m is None:
-            from .core import Infeasible
-            raise Infeasible()
-        v = m.eval(self.z, model_completion=True).as_long()
-        while True:
-            if self.e.branch(self.z == v):
-                return v
-            m = self.e.model()
-            v = m.eval(self.z, model_completion=True).as_long()
+        return self.e.choose(self.z)
 
     def __index__(self):
         return self.realize()
